@@ -84,6 +84,28 @@ def broken_star(b, j):
     return ('own' in c['sa'] and ts['args'][1] == 'broken') or ('own' in c['sk'] and ts['kwargs'][1] == 'broken')
 
 
+def branch_alive(b, sel, oview, pool, ha_cands, hk_cands, budget=1500):
+    """Some call the def itself accepts runs through on this branch for some hidden values."""
+    ob = cpbind.binder(oview)
+    okp = cpbind.kwpassable(oview)
+    has_vk = any(k == VK for n, k, d in oview)
+    names = [n for n in pool if n in okp or has_vk]
+    tried = 0
+    for npos in range(cpbind.poscap(oview) + 3):
+        for r in range(3):
+            for K in itertools.combinations(names, r):
+                if not ob.accepts(npos, K):
+                    continue
+                for ha, hk in itertools.product(ha_cands, hk_cands):
+                    tried += 1
+                    if tried > budget:
+                        return True     # undecided within the budget: treated as alive (the failure is reported)
+                    out, info = b.execute(npos, tuple(K), sel, ha, hk)
+                    if out != 'TypeError':
+                        return True
+    return False
+
+
 def dead_call(b, c):
     """The written part of the call can never bind to its callee, whatever the star-arguments
     hold: every execution of that branch raises TypeError, so the function honours no call at
@@ -104,7 +126,7 @@ def dead_call(b, c):
 def _function_signature(b):
     from sigtools import signatures
     from vlib import expect
-    if b.prog['route'] in ('self_method', 'self_attr', 'self_attr_store', 'classmethod_cls', 'self_shadow_nested'):
+    if b.prog['route'] in ('self_method', 'self_attr', 'self_attr_store', 'self_attr_store_arg', 'classmethod_cls', 'self_shadow_nested'):
         return signatures.signature(b.target.__func__)
     if b.prog['route'] in ('param', 'param_shadow_lambda', 'param_shadow_kwonly', 'param_default'):
         return signatures.signature(b.target.func)
@@ -142,7 +164,7 @@ def calls_role_inconsistent(b):
     from sigtools import signatures
     from vlib import expect
     try:
-        if b.prog['route'] in ('self_method', 'self_attr', 'self_attr_store', 'classmethod_cls', 'self_shadow_nested'):
+        if b.prog['route'] in ('self_method', 'self_attr', 'self_attr_store', 'self_attr_store_arg', 'classmethod_cls', 'self_shadow_nested'):
             fsig = signatures.signature(b.target.__func__)
         elif b.prog['route'] in ('param', 'param_shadow_lambda', 'param_shadow_kwonly', 'param_default'):
             fsig = signatures.signature(b.target.func)
@@ -253,6 +275,7 @@ def check_prog(prog, stats, executed_cap=400):
         ek_names = [n for n in hk_names if n not in okp][:4]
         executed = reached = inconclusive = 0
         BUDGET = 600
+        alive = {}
         for sel in range(b.nsel()):
             calls = [prog['calls'][sel]] if b.nsel() > 1 else prog['calls']
             if any(broken_star(b, prog['calls'].index(c)) for c in calls):
@@ -312,6 +335,16 @@ def check_prog(prog, stats, executed_cap=400):
                         if not ok:
                             what = 'modes=%s taints=%s' % ('+'.join(modes), ','.join(t['name'] for t in prog['taints'] if t['where'] == 'before') or '-')
                             hidden = ca or ck or flows['args'] or flows['kwargs']
+                            if hidden:
+                                # the hidden values are one tuple / mapping per execution: calls made one after the other may
+                                # need values that exclude each other (one wants two items, the next one) -- then no execution
+                                # of this branch succeeds whatever is passed, the function honours no call at all and the
+                                # reported signature is not held to account (same rule as for dead branches)
+                                if sel not in alive:
+                                    alive[sel] = branch_alive(b, sel, oview, pool, ha_cands, hk_cands)
+                                if not alive[sel]:
+                                    stats.cls('branch/dead under every hidden value (sequential calls with incompatible needs)')
+                                    break
                             bucket = 'C05/unsound/%s/%s/%s' % (
                                 'unresolvable' if route in progs.UNRESOLVABLE else route,
                                 'hidden' if hidden else 'plain', 'tainted' if tainted else 'untainted')
